@@ -10,7 +10,8 @@
    grammars* to an alphabet / a shape, so "accepted => the converter cannot raise" holds by construction and the
    content of each syntax theorem is that the pattern accepts *exactly* that restriction. *)
 From Coq Require Import List NArith ZArith Bool.
-From PP Require Import Model.Str Model.Regex Model.Builtins Gen.GenRegex Proofs.BuiltinsProofs.
+From PP Require Import Model.Str Model.Regex Model.Builtins Gen.GenRegex Gen.GenHelpers Proofs.BuiltinsProofs.
+From PP Require Import Model.Quoted Proofs.QuotedProofs Model.Helpers Proofs.HelpersProofs.
 Import ListNotations.
 
 (* ------------------------------------------------------------------ the meaning of a reference grammar *)
@@ -179,4 +180,132 @@ Example C18_address_instances :
   rx_match g_ipv4_strict [50; 53; 53; 46; 48; 46; 49; 48; 46; 57]%N = true /\     (* 255.0.10.9 *)
   re_fullmatch re_ipv4_address [50; 53; 54; 46; 48; 46; 48; 46; 48]%N = false /\  (* 256.0.0.0 *)
   supported_mac_address = false.                                                  (* back-reference: correspondence only *)
+Proof. vm_compute. repeat split. Qed.
+
+(* ------------------------------------------------------------------ QuotedString
+   qs_pattern mirrors the pattern construction of QuotedString.__init__, qs_parse is parseImpl (first-character test,
+   pattern.match, strip quotes, the unquote_scan_re loop with the regenerated ws_map / numeric-escape alternative,
+   then the esc_quote replacement), quoted_source cfg content = quote ++ escape_content cfg content ++ end_quote.
+
+   _partial: proved for EVERY quote / end-quote string (any length), esc_char, multiline, unquote_results,
+   convert_whitespace_escapes and EVERY content -- in the configurations with an esc_char and no esc_quote, under
+   roundtrip_hyp: quote strings non-empty; esc_char differs from the first end-quote character; neither is a newline;
+   without multiline the content has no \n / \r; and when white-space escapes are converted and esc_char is the
+   backslash, the end quote does not start with one of t n f r x u 0-7.
+   Not covered by the theorem (correspondence over the parameter grid instead): esc_quote given (F-18a below),
+   no esc_char and no esc_quote (content then cannot contain the end quote at all). *)
+Theorem C18_quoted_roundtrip_partial : forall q eq e ml unq cws content,
+  let cfg := esc_cfg q eq e ml unq cws in
+  roundtrip_hyp cfg e content = true ->
+  qs_parse cfg (quoted_source cfg content) 0 =
+    Some (length (quoted_source cfg content), if unq then content else quoted_source cfg content).
+Proof. exact quoted_roundtrip. Qed.
+
+(* a multi-character quote pair, esc_char = backslash, content containing the end quote, the escape character and \t *)
+Example C18_quoted_roundtrip_instance :
+  let cfg := esc_cfg [60; 60]%N [62; 62; 62]%N 92%N true true true in
+  let content := [62; 62; 62; 92; 116; 10; 97]%N in
+  roundtrip_hyp cfg 92%N content = true /\
+  quoted_source cfg content = [60; 60; 92; 62; 92; 62; 92; 62; 92; 92; 116; 10; 97; 62; 62; 62]%N /\
+  qs_parse cfg (quoted_source cfg content) 0 = Some (16, content).
+Proof. vm_compute. repeat split. Qed.
+
+(* F-18a: quote = one double-quote character, esc_char = backslash, esc_quote = two double quotes.  The content
+   made of two double quotes is quoted as DQ BS DQ BS DQ DQ and parses to a single double quote: the esc_quote
+   replacement runs on the already un-escaped text *)
+Theorem C18_escquote_refuted : exists cfg content,
+  q_esc cfg = Some BS /\ q_escq cfg = Some [34; 34]%N /\
+  exists e out, qs_parse cfg (quoted_source cfg content) 0 = Some (e, out) /\ e = length (quoted_source cfg content) /\
+                out <> content.
+Proof.
+  exists f18a_cfg, [34; 34]%N. split; [reflexivity|]. split; [reflexivity|].
+  exists 6, [34%N]. split; [exact (proj2 f18a_witness)|]. split; [reflexivity | discriminate].
+Qed.
+
+(* F-18b: without esc_char, convert_whitespace_escapes=True turns the content backslash-t into a TAB *)
+Theorem C18_ws_escape_refuted : exists cfg content,
+  q_esc cfg = None /\ q_cws cfg = true /\
+  exists e out, qs_parse cfg (quoted_source cfg content) 0 = Some (e, out) /\ out <> content.
+Proof.
+  exists f18b_cfg, [92; 116]%N. split; [reflexivity|]. split; [reflexivity|].
+  exists 4, [9%N]. split; [exact f18b_witness | discriminate].
+Qed.
+
+(* ------------------------------------------------------------------ nested_expr
+   single-character opener / closer (not white space, distinct), default content, ignore_expr=None.
+   _partial: (1) every well-formed tree is accepted from its canonical text (items separated by one blank) and is
+   returned as the nesting; (2) whatever is accepted has a balanced bracket skeleton which is exactly the skeleton of
+   the returned tree.  Other white-space layouts of the same nesting are compared by correspondence only. *)
+Theorem C18_nested_expr_partial : forall o c, is_ws o = false -> is_ws c = false -> N.eqb c o = false ->
+  (forall l rest f, forallb (wf_tree o c) l = true -> tsize (NList l) <= f ->
+     parse_nested f o c (show o c (NList l) ++ rest) = Some (NList l, rest)) /\
+  (forall f s t rest, parse_nested f o c s = Some (t, rest) ->
+     exists consumed l, s = consumed ++ rest /\ t = NList l /\ wf_tree o c t = true /\
+                        filter (is_bracket o c) consumed = brackets o c t /\
+                        balanced o c (filter (is_bracket o c) consumed)).
+Proof.
+  exact (fun o c Ho Hc Hoc => conj (nested_canonical o c Ho Hc Hoc) (nested_sound o c Ho Hc Hoc)).
+Qed.
+
+Example C18_nested_expr_instance :
+  let t := NList [NWord [97%N]; NList [NWord [98%N]; NWord [99%N]]; NList []; NWord [100%N]] in
+  forallb (wf_tree 40%N 41%N) [t] = true /\
+  show 40%N 41%N t = [40; 97; 32; 40; 98; 32; 99; 41; 32; 40; 41; 32; 100; 41]%N /\
+  parse_nested 12 40%N 41%N ([32; 40; 97; 40; 98; 10; 99; 41; 40; 32; 41; 100; 41] ++ [120])%N = Some (t, [120%N]) /\
+  parse_nested 12 40%N 41%N [40; 40; 97; 41]%N = None.
+Proof. vm_compute. repeat split. Qed.
+
+(* ------------------------------------------------------------------ DelimitedList
+   content + (delim + content) * (dl_lo min, dl_hi max) [+ Opt(delim)]  with dl_lo / dl_hi regenerated from
+   DelimitedList.__init__ (min - 1, max - 1); `content` and `delim` are arbitrary deterministic elements.
+   A successful parse returns the first element followed by a chain of (delim content) pairs: at least min and at
+   most max elements, and if fewer than max then no further pair can be parsed at the stopping point (greedy);
+   with allow_trailing_delim one more delimiter is consumed when present.  It fails exactly when there is no first
+   element or fewer than min - 1 pairs follow. *)
+Theorem C18_delimited_list : forall (A : Type) content delim mn mx trail s items rest,
+  1 <= mn -> (forall m, mx = Some m -> mn <= m) ->
+  (mx = None -> forall s x s', pair A content delim s = Some (x, s') -> length s' < length s) ->
+  delimited_list A content delim mn mx trail s = Some (items, rest) ->
+  exists x s1 xs s3,
+    content s = Some (x, s1) /\ items = x :: xs /\ chain A content delim xs s1 s3 /\
+    mn <= length items /\ (forall m, mx = Some m -> length items <= m) /\
+    ((forall m, mx = Some m -> length items < m) -> pair A content delim s3 = None) /\
+    rest = (if trail then match delim s3 with Some s' => s' | None => s3 end else s3).
+Proof. exact delimited_list_spec. Qed.
+
+Theorem C18_delimited_list_fails : forall (A : Type) content delim mn mx trail s,
+  delimited_list A content delim mn mx trail s = None <->
+  (content s = None \/
+   exists x s1, content s = Some (x, s1) /\ ~ exists xs s2, chain A content delim xs s1 s2 /\ length xs = mn - 1).
+Proof. exact delimited_list_fails. Qed.
+
+(* letters separated by commas, min = 2, max = 3, trailing delimiter allowed *)
+Example C18_delimited_list_instance :
+  let content := fun s : str => match s with x :: r => if N.leb 97 x then Some (x, r) else None | [] => None end in
+  let delim := fun s : str => match s with 44%N :: r => Some r | _ => None end in
+  delimited_list N content delim 2 (Some 3) true [97; 44; 98; 44; 99; 44; 100]%N = Some ([97; 98; 99]%N, [100%N]) /\
+  delimited_list N content delim 2 (Some 3) true [97]%N = None /\
+  delimited_list N content delim 1 None false [97; 44; 98; 44]%N = Some ([97; 98]%N, [44%N]).
+Proof. vm_compute. repeat split. Qed.
+
+(* ------------------------------------------------------------------ counted_array
+   the count's parse action installs `expr * n` as the body of the Forward that follows (whatever body it had
+   before): exactly n items are consumed and returned, or the parse fails *)
+Theorem C18_counted_array : forall (A : Type) count item skipw body0 s items rest body,
+  counted_array A count item skipw body0 s = (Some (items, rest), body) ->
+  exists n s1, count s = Some (n, s1) /\ length items = n /\ body = Some n /\
+               ca_body A item skipw n s1 = Some (items, rest).
+Proof. exact counted_array_spec. Qed.
+
+Theorem C18_counted_array_short : forall (A : Type) count item skipw body0 s n s1,
+  count s = Some (n, s1) -> ca_body A item skipw n s1 = None ->
+  fst (counted_array A count item skipw body0 s) = None.
+Proof. exact counted_array_short. Qed.
+
+Example C18_counted_array_instance :
+  let count := fun s : str => match s with d :: r => Some (N.to_nat (d - 48), r) | [] => None end in
+  let item := fun s : str => match s with x :: r => if N.leb 97 x then Some (x, r) else None | [] => None end in
+  counted_array N count item skip_ws None [50; 97; 98; 99]%N = (Some ([97; 98]%N, [99%N]), Some 2) /\
+  counted_array N count item skip_ws (Some 7) [48; 32; 97]%N = (Some ([], [97%N]), Some 0) /\
+  fst (counted_array N count item skip_ws None [51; 97; 98]%N) = None.
 Proof. vm_compute. repeat split. Qed.
